@@ -13,6 +13,14 @@ CHECKS = {
    text="Every obligation generated from the current source of ValueObj::try_{add,sub,mul,floordiv,mod,pow,gt,ge,lt,le,eq,ne,or}, From<i32>/From<bool> for ValueObj, checked_floordiv_i32/checked_floormod_i32 and Context::eval_unary_val is discharged by Verus for all Int/Nat/Bool operands (no overflow, no division by zero, result equals the Python value or is None); Float classes, try_div and the float helpers' zero-divisor behaviour are discharged by loop-free full-domain Kani harnesses.",
    note="Assumed: vstd's specs of checked_* integer ops and of Rust's truncating / and %; std contracts of i32/u64::checked_pow and checked_neg (wrappers); the value part of checked_truediv (IEEE quotient) and float_divmod (CPython transcription) - CBMC cannot decide full-domain f64 division/fmod; f64 powf/powi (try_pow Float classes not carried); Nat operands above 2**53 in int/int true division. The dispatch eval_const_expr -> eval_bin -> try_* is not under contract. Non-scalar arms (Str, List, Dict, Type) are R2-erased.",
    technique=TECH_V + " (class-copied contracts) + Kani/CBMC loop-free harnesses; counterexamples replayed on the real crate"),
+ "C11": dict(engine="kani", category="proof",
+   text="PARTIAL: the operator precedence table itself. For all pairs of token kinds, TokenKind::precedence orders the operators exactly as the documented table (member access > ** > prefix > * / // % > + - > shifts > && > ^^ > || > ranges > comparisons > and > or; same row <=> same precedence), no binary operator of the table is right-associative, and opening brackets bind weaker than every operator. Kani loop-free over all token kinds (complete).",
+   note="Not carried: the reduce loop in Parser::try_reduce_expr that consumes the table (a change of `>=` there is invisible to this check), Lexer::op_fix (minus before a literal), method calls and parentheses. The documented table is transcribed from the property statement.",
+   technique=TECH_K),
+ "C24": dict(engine="kani", category="proof",
+   text="PARTIAL: the location calculus every diagnostic position is built with. Location::concat/left_main_concat/stream give the exact span for two ranges, a well-formed result for well-formed operands in source order, never invent a line, and are Unknown only if both operands are; accessors and Locational defaults return the stored coordinates; Token::loc places a token on its own line between its columns. Kani loop-free over all u32 coordinates (complete).",
+   note="Not carried: that lowering attaches the right node's location to each error, that callers pass operands in source order, format_context/format_code_and_pointer rendering (string formatting over StyledStrings), and column bookkeeping in the lexer (C08).",
+   technique=TECH_K),
  "C16": dict(engine="kani", category="proof",
    text="For every byte, each version table (impl_u8_enum! expansions Opcode308/309/310/311, CommonOpcode) maps it to a variant whose number equals dis.opmap of the matching CPython; is_jump_op agrees with dis.hasjrel/hasjabs on every opcode codegen.rs names, for 3.7-3.11; jump_abs_addr_309/310/311 equal CPython's target formula; magic bytes round-trip for every u16 and get_ver_from_magic_num maps each installed interpreter's magic to its version. Loop-free Kani harnesses over the full domain (complete).",
    note="External contract: the tables of the installed CPython 3.6-3.12 (read at run time; committed snapshot only as fallback). The emit set is computed textually from codegen.rs (version guards not analysed). Variants absent from an interpreter are reported, not obligations.",
